@@ -3,6 +3,8 @@
 demo passes without it) in the scratch worktree, keep it under /verif/seeded/, then run my checks with it applied to /repo."""
 import json, os, shutil, subprocess, sys
 pid, var = sys.argv[1], sys.argv[2]
+REPO = os.environ.get("VERIF_REPO", "/repo")
+VER = os.path.dirname(os.path.abspath(__file__))
 props = sys.argv[3:] or [pid]
 src = "/tmp/seedout/%s/%s" % (pid, var)
 wt = "/tmp/seed/%s" % pid
@@ -28,16 +30,16 @@ if os.path.isdir(src) and not os.path.exists(dst + "/meta.json"):
     notes = open(src + "/notes.txt").read() if os.path.exists(src + "/notes.txt") else ""
     json.dump({"breaks_property": pid, "needs_to_manifest": notes, "confirmed_by": ["demo passes on pinned tree (go test -run TestVerifDemo)", "suite passes with patch (go test ./...)", "demo fails with patch"], "detected_by": {}}, open(dst + "/meta.json", "w"), indent=1)
 meta = json.load(open(dst + "/meta.json"))
-rc, o = sh("git -C /repo apply --3way %s/patch.diff 2>&1 || git -C /repo apply %s/patch.diff" % (dst, dst))
+rc, o = sh("git -C %s apply --3way %s/patch.diff 2>&1 || git -C %s apply %s/patch.diff" % (REPO, dst, REPO, dst))
 if rc != 0:
-    print("patch does not apply to current /repo:", o[-300:]); sh("git -C /repo reset -q; git -C /repo checkout HEAD -- list_impl.go object_impl.go anytype.go parser.go list.go object.go"); sys.exit(4)
+    print("patch does not apply to current /repo:", o[-300:]); sh("git -C %s reset -q; git -C %s checkout HEAD -- list_impl.go object_impl.go anytype.go parser.go list.go object.go" % (REPO, REPO)); sys.exit(4)
 try:
     for p in props:
-        rc, o = sh("./check %s quick" % p, "/verif")
+        rc, o = sh("./check %s quick" % p, VER)
         lines = [l for l in o.splitlines() if l.startswith("VIOLATION") or "failed obligation" in l or "failing input" in l][:6]
         print(p, "DETECTED" if rc == 1 else "missed (rc=%d)" % rc)
         for l in lines: print("   ", l[:220])
         meta["detected_by"][p] = {"detected": rc == 1, "lines": lines}
 finally:
-    sh("git -C /repo reset -q; git -C /repo checkout HEAD -- list_impl.go object_impl.go anytype.go parser.go list.go object.go")
+    sh("git -C %s reset -q; git -C %s checkout HEAD -- list_impl.go object_impl.go anytype.go parser.go list.go object.go" % (REPO, REPO))
 json.dump(meta, open(dst + "/meta.json", "w"), indent=1)
